@@ -32,6 +32,23 @@ Interpretation notes (see notes/C18.md):
   two interface addresses mapped to one external address on one port (TCP mux, single-port range) yield
   ONE candidate, the second being a duplicate. Which rule applies when (precedence among several rules) is
   C19's subject; here there is one rule and `ruleExts` restates its documented reach.
+* CONTINUAL GATHERING (`GatherContinually` + monitor interval I; the interface table changes during the session).
+  (a) Soundness speaks about the moment a candidate is published: "sits on an interface and address accepted by
+  the filters" is judged against the interface table AT THE TIME of the (re-)gather pass that produced the
+  candidate. A host candidate is produced in no time, so a host candidate delivered to `OnCandidate` during an
+  operation is judged against the table in force during that operation; a reflexive or relay candidate may come
+  from a request sent under an earlier table, and a candidate merely LISTED was judged when it was delivered: for
+  those, some table the session has had must accept them. (b) "Conversely every eligible interface address yields
+  a host candidate" is read, for an address that appears later, as: once the address has been in the table for a
+  full monitor interval during which the cycle was live and idle at every observation (state Gathering, same
+  generation, no request of the generation in flight, no gatherer parked, no Failed transition in the
+  generation), a host candidate for it exists, per enabled transport with a listener, as for the first pass.
+  (c) The state clause: the text's New→Gathering→Complete and the nil candidate belong to a cycle "that runs to
+  completion (gather-once policy)" (C11); a continual cycle never completes, so it must stay Gathering and deliver
+  no nil candidate. (d) Candidates of addresses that disappeared are not owed a removal by the text. (e) "Cycles
+  never overlap" seen from outside: every change of the table can start at most one further pass of the same
+  cycle, and a pass opens one more socket per address, so the bound on own-socket host candidates per address is
+  multiplied by 1 + the number of table changes so far.
 -/
 namespace IceSpec.C18
 open IceModel.Gather
@@ -164,10 +181,11 @@ def eligibleAddr (cfg : Config) (ifs : List Iface) (a : Addr) : Bool :=
 /-- completeness, checked right after an accepted `GatherCandidates` whose host gatherer has run:
 `ownSockets` = upper bound of the ports this agent itself may occupy (so that "a port is free" is
 decidable from outside) -/
-def completeViolation (cfg : Config) (ifs : List Iface) (ownSockets : Nat) (cands : List CandO) : Option String :=
+def completeViolation (cfg : Config) (ifs : List Iface) (ownSockets : Nat) (cands : List CandO)
+    (only : Addr → Bool := fun _ => true) : Option String :=
   if !(typesEnabled cfg).contains .host then none else
   let has (p : CandD → Bool) : Bool := cands.any (fun c => c.1.ty == .host && p c.1)
-  let addrs := (ifs.flatMap (·.addrs)).filter (eligibleAddr cfg ifs)
+  let addrs := (ifs.flatMap (·.addrs)).filter (fun a => eligibleAddr cfg ifs a && only a)
   -- what `a` is to be published as, for transport `tcp`: itself where some accepted interface carrying it
   -- leaves it in place (i), and every publishable external address the rule assigns to it (ii)
   let pubs (tcp : Bool) (a : Addr) (ifcs : List (Option Nat)) : List Addr :=
@@ -208,6 +226,15 @@ structure MonSt where
   /-- generations in which a `GatherCandidates` call was accepted -/
   gathered : List Nat := []
   started : Bool := false
+  /-- every interface table the session has had, newest (= current) first -/
+  tabs : List (List Iface) := []
+  /-- number of `ifaces` operations so far -/
+  changes : Nat := 0
+  /-- continual gathering: since when (virtual ms) each address of the current table has been eligible with the
+  cycle live and idle at every observation -/
+  since : List (Addr × Nat) := []
+  /-- Failed count when the current generation began -/
+  failedBase : Nat := 0
   deriving Inhabited
 
 def MonSt.init : MonSt := {}
@@ -228,13 +255,13 @@ def acceptedGather (op r : String) : Bool :=
 /-- cycles never overlap, seen from outside: one cycle opens one socket per (interface address,
 transport), so an address never backs more own-socket host candidates of one network type than there
 are interfaces carrying it; and no two requests with the same key are in flight -/
-def overlapViolation (exts : List Addr) (ifs : List Iface) (o : Obs) : Option String :=
+def overlapViolation (exts : List Addr) (tabs : List (List Iface)) (passes : Nat) (o : Obs) : Option String :=
   let own := o.cands.filter (fun c => c.1.ty == .host && c.1.pflag != .M && c.1.addr.cls != .nm)
   -- with a host rewrite rule: per socket address and published address (a rule may list an external address
   -- more than once, and may list the local address itself)
   let sockOf (c : CandO) : Addr := c.1.base.getD c.1.addr
   match own.find? (fun c => (own.filter (fun d => d.1.net == c.1.net && d.1.addr == c.1.addr && sockOf d == sockOf c)).length
-                              > ((ifs.flatMap (·.addrs)).filter (· == sockOf c)).length
+                              > ((tabs.map fun ifs => ((ifs.flatMap (·.addrs)).filter (· == sockOf c)).length).foldl max 0) * passes
                                 * ((if c.1.base.isNone then 1 else 0) + (exts.filter (· == c.1.addr)).length)) with
   | some c => some ("more host candidates on " ++ (sockOf c).tok ++ " than interfaces carrying it (overlapping cycles)")
   | none =>
@@ -242,9 +269,12 @@ def overlapViolation (exts : List Addr) (ifs : List Iface) (o : Obs) : Option St
     if keys.any (fun k => (keys.filter (· == k)).length > 1) then
       some "two requests with the same key in flight (overlapping cycles)" else none
 
-def cycleViolation (m : MonSt) (op r : String) (o : Obs) : Option String :=
+def cycleViolation (m : MonSt) (op r : String) (o : Obs) (continual : Bool := false) : Option String :=
   let p := m.prev
   firstSome [
+    -- continual gathering: the cycle never completes, no end-of-candidates is ever delivered
+    (if continual && o.st == some .complete then some "continual gathering: gathering state Complete" else none),
+    (if continual && (o.nilOp > 0 || o.nils > 0) then some "continual gathering: nil candidate delivered" else none),
     -- two calls back to back while the state is still New: both are accepted, the first cycle is cancelled
     -- before it marks Gathering; outside New both are refused and nothing changes
     (if op == "gather2" && p.st == some .new && r != "ok+ok" then some "back-to-back GatherCandidates in state New: a call was refused" else none),
@@ -284,16 +314,51 @@ def cycleViolation (m : MonSt) (op r : String) (o : Obs) : Option String :=
       some "mux connection requested under the ufrag of a generation that never started gathering (stale cycle, F12)" else none)
   ]
 
+/-- soundness of a published candidate when the interface table changes during the session: a host candidate
+DELIVERED during this operation is judged against the table in force now; anything else against the tables the
+session has had (`tabs`, the current one first) -/
+def soundViolation (cfg : Config) (tabs : List (List Iface)) (ifs : List Iface) (o : Obs) : Option String :=
+  let some1 (c : CandD) : Option String :=
+    if tabs.any (fun t => (candViolation cfg t c).isNone) then none else candViolation cfg ifs c
+  match o.cands.findSome? (fun c => some1 c.1) with
+  | some v => some v
+  | none => o.evs.findSome? fun c => if c.1.ty == .host then candViolation cfg ifs c.1 else some1 c.1
+
+/-- is the live continual cycle idle at this observation? -/
+def idleNow (cfg : Config) (m : MonSt) (o : Obs) : Bool :=
+  cfg.continual && o.st == some .gathering && o.held == 0 && !o.pend.any (fun q => q.2.1 == o.gen)
+    && o.failed == (if o.gen == m.prev.gen then m.failedBase else o.failed)
+
 /-- the whole monitor: soundness of every published candidate, completeness after an accepted
-gather, the cycle clauses -/
+gather (and, with continual gathering, for every address that has been there for a monitor interval), the cycle
+clauses. `ifs` = the interface table in force during the operation (after an `ifaces` operation: the new one) -/
 def check (cfg : Config) (ifs : List Iface) (m : MonSt) (op r : String) (o : Obs) : Option String × MonSt :=
-  let m' : MonSt := { prev := o, started := true,
+  let tabs := if op == "ifaces" || m.tabs.isEmpty then ifs :: m.tabs else m.tabs
+  let changes := if op == "ifaces" then m.changes + 1 else m.changes
+  let idle := idleNow cfg m o
+  let sameGen := m.started && o.gen == m.prev.gen
+  -- the addresses the table makes eligible now (an address on a down interface is in the table but not eligible)
+  -- (an address carried by several accepted interfaces is left out: whether "the address appeared" when it shows up on
+  -- a further interface is not something the text decides — observation O7 in notes/C18.md)
+  let present := ((ifs.flatMap (·.addrs)).filter (fun a => eligibleAddr cfg ifs a && (acceptedIfacesOf cfg ifs a).length ≤ 1)).eraseDups
+  let since : List (Addr × Nat) :=
+    if !idle then [] else
+    present.map fun a => (a, if sameGen then ((m.since.find? (·.1 == a)).map (·.2)).getD o.now else o.now)
+  let m' : MonSt := { prev := o, started := true, tabs := tabs, changes := changes, since := since,
+                      failedBase := if sameGen then m.failedBase else o.failed,
                       gathered := if acceptedGather op r then m.gathered ++ [o.gen] else m.gathered }
-  let sound := (o.cands ++ o.evs).findSome? fun c => candViolation cfg ifs c.1
+  let sound := soundViolation cfg tabs ifs o
   let ownSockets := ((m.prev.led.filter (fun q => q.1.1 == .sock)).map (·.2)).foldl (· + ·) 0
   -- "yields a host candidate" = published by this gather: listed now or delivered to OnCandidate during the
   -- operation (entering Failed inside the operation removes the candidate from the list again)
   let compl := if acceptedGather op r && o.held == 0 then completeViolation cfg ifs ownSockets (o.cands ++ o.evs) else none
-  (firstSome [sound, compl, overlapViolation (hostExts cfg) ifs o, cycleViolation m op r o], m')
+  -- continual gathering: the addresses that have been in the table for a whole monitor interval of an idle cycle
+  let ripe (a : Addr) : Bool := since.any (fun p => p.1 == a && p.2 + cfg.monInterval ≤ o.now)
+  let complC := if idle && sameGen && since.any (fun p => p.2 + cfg.monInterval ≤ o.now) then
+      (completeViolation cfg ifs ownSockets (o.cands ++ o.evs) ripe).map
+        (fun v => "continual gathering, address in the table for a whole monitor interval of an idle cycle: " ++ v)
+    else none
+  (firstSome [sound, compl, complC, overlapViolation (hostExts cfg) tabs (1 + changes) o,
+              cycleViolation m op r o cfg.continual], m')
 
 end IceSpec.C18
